@@ -188,7 +188,35 @@ fn metamorphic(ctx: &mut Ctx) {
         let oa = render_text(&parser, &src_tmpl(&a), &data);
         let ob = render_text(&parser, &src_tmpl(&b), &data);
         let oc = render_text(&parser, &src_tmpl(&c), &data);
+        // DYN-NAME: one tag executed with a different name each time == the literal tags in a row
+        let seq: Vec<String> = (0..(2 + g.rng.below(2))).map(|_| g.rng.pick(&avail).clone()).collect();
+        let use_include = g.rng.chance(1, 2);
+        let mk = |name: Expr| if use_include { Node::Include(name, vec![]) } else { Node::Render(name, RForm::Plain, vec![]) };
+        let mut dyn_t = pre1.clone();
+        dyn_t.push(text(OPEN));
+        dyn_t.push(Node::For { x: "pn".into(), rng: RangeE::Arr(var("pnames")), limit: None, offset: None, rev: false, body: vec![mk(var("pn"))], els: None });
+        dyn_t.push(text(CLOSE));
+        let mut lit_t = pre1.clone();
+        lit_t.push(text(OPEN));
+        for n in &seq {
+            lit_t.push(mk(lit_s(n)));
+        }
+        lit_t.push(text(CLOSE));
+        let mut data_dyn = data.clone();
+        data_dyn.insert("pnames".into(), Value::Array(seq.iter().map(|n| Value::scalar(n.clone())).collect()));
+        let o_dyn = render_text(&parser, &src_tmpl(&dyn_t), &data_dyn);
+        let o_lit = render_text(&parser, &src_tmpl(&lit_t), &data_dyn);
         let mut kind = "meta".to_string();
+        if let (Some(x), Some(y)) = (between(&o_dyn, OPEN, CLOSE), between(&o_lit, OPEN, CLOSE)) {
+            if x != y {
+                kind = "DYN-NAME".into();
+            }
+        }
+        if kind == "DYN-NAME" {
+            // report the dynamic template itself
+            ctx.emit(render_case("c08", &kind, &dyn_t, &data_dyn, &partials, &o_dyn));
+            continue;
+        }
         if let Some(u) = unrolled {
             let mut d = pre1.clone();
             d.push(text(OPEN));
